@@ -49,6 +49,47 @@ def judge(out):
     return "ok", ""
 
 
+def late_data_doc(rng):
+    """late binding: a ring of states, some with their own <data> that is counted up on every entry and decides where
+    event `c` leads; a snapshot taken while such a state has been left must not make it forget (or re-initialise) its data"""
+    n = rng.randint(2, 4)
+    local = [i for i in range(n) if rng.random() < 0.7] or [0]
+    thr = rng.randint(2, 3)
+    states = ""
+    for i in range(n):
+        dm = ('<datamodel><data id="v%d" expr="0"/></datamodel><onentry><assign location="v%d" expr="v%d + 1"/></onentry>'
+              '<transition event="c" cond="v%d &gt;= %d" target="big%d"/><transition event="c" target="small%d"/>' % (i, i, i, i, thr, i, i)) if i in local else ""
+        states += '<state id="s%d">%s<transition event="n" target="s%d"/></state>' % (i, dm, (i + 1) % n)
+        if i in local:
+            states += '<state id="big%d"><transition event="n" target="s%d"/></state><state id="small%d"><transition event="n" target="s%d"/></state>' % (i, i, i, i)
+    doc = ('<scxml xmlns="http://www.w3.org/2005/07/scxml" version="1.0" datamodel="lua" binding="%s" initial="s0">'
+           '<datamodel><data id="g" expr="0"/></datamodel>%s</scxml>' % (rng.choice(["late", "late", "late", "early"]), states))
+    evs = [rng.choice(["n", "n", "n", "c"]) for _ in range(rng.randint(2, 9))]
+    k = rng.randint(0, len(evs))
+    other = '<scxml xmlns="http://www.w3.org/2005/07/scxml" version="1.0" datamodel="lua"><state id="x"/><state id="y"/></scxml>'
+    return doc, evs[:k], evs[k:] + [rng.choice(["n", "c"]) for _ in range(rng.randint(1, 4))], other
+
+
+def suite_late(ctx, n):
+    rng = ctx.rng
+    lines, docs = [], []
+    for _ in range(n):
+        doc, pre, cont, other = late_data_doc(rng)
+        for engine in ("large", "fast"):
+            lines.append("%s\t-\t%s\t%s\t%s\t%s" % (engine, ",".join(pre) or "-", ",".join(cont) or "-", hexs(doc), hexs(other))); docs.append(doc)
+    outs = run_serial(ctx, lines)
+    st = dict(inputs=len(lines), identical=0, skipped=0, violations=0)
+    for l, doc, o in zip(lines, docs, outs):
+        v, why = judge(o)
+        if v == "skip": st["skipped"] += 1; continue
+        if v == "ok": st["identical"] += 1; continue
+        st["violations"] += 1
+        if len(ctx.violations) < 4:
+            ctx.violation("late-%d" % len(ctx.violations), "serialize-late-data", [l],
+                          detail="engine %s, lua datamodel, data declared inside states: %s\nprefix/continuation: %s\ndocument: %s" % (l.split("\t")[0], why, l.split("\t")[2:4], doc))
+    ctx.add_suite("serialize-late-data", **st)
+
+
 def run(ctx):
     ctx.setup()
     ctx.audit(THEOREMS, LEAN_FILES)
@@ -77,6 +118,7 @@ def run(ctx):
                     ctx.violation("resume-%d" % len(ctx.violations), "serialize", [l],
                                   detail="engine %s, datamodel %s: %s\nchart: %s\nprefix/continuation: %s" % (engine, dm, why, charts.sexpr(d)[:500], l.split("\t")[2:4]))
     ctx.add_suite("serialize", **st)
+    suite_late(ctx, 60 if quick else 2000)
     # the hypothesis of restore_snapshot is what the engine model maintains: evaluated at every stable point
     sc = E.gen_cases(rng, 400 if quick else 10000, p_history=0.5, max_events=4)
     res = ctx.driver_lines("snapcheck", ["large\t%s\t%s" % (charts.sexpr(d), ",".join(e) or "-") for d, e in sc], timeout=1800)
@@ -91,5 +133,5 @@ def run(ctx):
     ctx.sample({"request": lines[0][:300]})
     ctx.coverage["evaluations"] = st["inputs"]
     ctx.coverage["distinct_nontrivial"] = st["identical"]
-    ctx.coverage["rule"] = "random charts x prefix history; snapshot at the first stable configuration after the last prefix event (self-sent external events may be pending); serialize, deserialize into a fresh interpreter for the same document and for another one, run the continuation on both; both engines, null and lua (2 variables) datamodels; identical = same notifications, logs, configurations and a second snapshot that is byte-identical"
+    ctx.coverage["rule"] = "random charts x prefix history; snapshot at the first stable configuration after the last prefix event (self-sent external events may be pending); serialize, deserialize into a fresh interpreter for the same document and for another one, run the continuation on both; both engines, null and lua (2 variables) datamodels; identical = same notifications, logs, configurations and a second snapshot that is byte-identical; plus the late-data family (lua, binding late/early, <data> inside states of a ring, counted up on entry and tested by conditions, snapshot anywhere in the history)"
     ctx.assumptions += ["delayed events and invokers are not in the generated fragment (see DESIGN.md C14 partial)"]
